@@ -93,8 +93,9 @@ def install(world):
 
     register(world, Contract(func=RSC, serves=["C13"], scenarios=[Scenario("any rows x cols array", any_selection)], key=RSC,
                              raises=[("ValueError", "two_columns_selected(selection)")]))
-    register(world, cmd_contract("evo_aspirate", "Aspirate")).shards = 8
-    register(world, cmd_contract("evo_dispense", "Dispense")).shards = 8
+    for ct in (register(world, cmd_contract("evo_aspirate", "Aspirate")), register(world, cmd_contract("evo_dispense", "Dispense"))):
+        ct.shards = 8
+        ct.heavy = True  # minutes of solver time: discharged by the checks they serve (C13, C10), assumed (and listed so) elsewhere
 
 
 # ----------------------------------------------------------------------------- evo_wash and the worklist methods
